@@ -439,6 +439,8 @@ def streamCond (limit : Nat) (s : RStream) (req : Req) : Prop :=
 instance (limit : Nat) (s : RStream) (req : Req) : Decidable (streamCond limit s req) := by
   unfold streamCond; infer_instance
 
+theorem dropStale_nil (off : Nat) (l : List MPub) : dropStale off [] l = l := rfl
+
 theorem finish_nil (cacheMode delta : Bool) (top epoch reqOff : Nat) (was : Bool) :
     finish cacheMode delta false [] [] top epoch reqOff was = .reply false [] top epoch top was := by
   cases cacheMode <;> cases delta <;> simp [finish, merge, isort, uniq, maxSeen, skipped, gapsCovered]
@@ -477,7 +479,8 @@ theorem streamSubscribe_spec (limit : Nat) (s : RStream) (hi : s.Inv) (req : Req
         simp only [toM]; omega
       unfold finish
       rw [merge_sorted_nobuf _ hpwM, filter_toM, log_after s hi]
-      simp only [Bool.false_and, Bool.false_eq_true, if_false, if_true]
+      simp only [dropStale_nil, Bool.false_and, Bool.false_eq_true, if_false, if_true, Bool.not_false,
+        Bool.and_true, Bool.and_self]
       have hmx := maxSeen_le _ _ hle
       rw [log_after s hi] at hmx
       have hlast : ∀ p, (((s.log.filter (fun p => decide (req.offset < p.offset))).filter pass).map toPlain).getLast? = some p →
@@ -492,11 +495,11 @@ theorem streamSubscribe_spec (limit : Nat) (s : RStream) (hi : s.Inv) (req : Req
         simp only [toPlain]; omega
       cases hgl : (((s.log.filter (fun p => decide (req.offset < p.offset))).filter pass).map toPlain).getLast? with
       | none =>
-        simp only
+        try simp only
         rw [if_neg (by omega)]
       | some p =>
         have := hlast p hgl
-        simp only
+        try simp only
         have h1 : ¬ (p.offset > s.top) := by omega
         rw [if_neg h1, if_neg (by omega)]
     · have hc' : ¬ ((req.epoch = 0 ∨ req.epoch = s.epoch) ∧ req.offset ≤ s.top ∧ s.lo ≤ req.offset ∧
